@@ -3,6 +3,7 @@ package props
 import (
 	"bytes"
 	"fmt"
+	"github.com/golang/protobuf/protoc-gen-go/descriptor"
 	"io"
 	"runtime"
 	"sync"
@@ -31,7 +32,7 @@ func init() {
 		Flavours: releaseThenGo126,
 		Required: []string{"kind/legacy", "kind/legacy+version", "kind/BytesValue", "kind/StringValue", "kind/BytesValue+version",
 			"body/0", "body/1", "body/70000", "ver/len=0", "ver/len=16", "ver/interior-NUL", "chunk/whole", "chunk/one-byte", "chunk/random", "chunk/data+EOF", "chunk/zero-reads",
-			"stream/frames=1", "stream/frames>=4", "stream/eof-after-last", "target/reused", "target/reused-for-empty-body", "stream/frame>1MiB-followed-by-frames", "reader/std-type", "writer/std-type", "concurrent/own-writers-and-readers"},
+			"stream/frames=1", "stream/frames>=4", "stream/eof-after-last", "target/reused", "target/reused-for-empty-body", "stream/frame>1MiB-followed-by-frames", "reader/std-type", "writer/std-type", "concurrent/own-writers-and-readers", "legacy/marshal-returns-own-slice", "marshal/rejected-message-then-valid-one"},
 		Families: func(c *mon.Config) []mon.Family {
 			return []mon.Family{
 				{Name: "cold-start", N: 1, Serial: true, Run: func(w *mon.W, _ int) {
@@ -55,6 +56,19 @@ func init() {
 func c06CheckMarshal(w *mon.W, c pbCase) ([]byte, bool) {
 	msg := c.msg()
 	body := c.body()
+	// one case in four: first a message the encoder rejects (a proto2 message with an unset required field: the error
+	// arrives after part of it was encoded). The caller gets the error; the next, valid message must be unaffected.
+	if n, _ := w.State["c06rej"].(int); true {
+		w.State["c06rej"] = n + 1
+		if n&3 == 0 {
+			w.Op = "Marshal(rejected message)"
+			bad := &descriptor.UninterpretedOption{Name: []*descriptor.UninterpretedOption_NamePart{{}}, IdentifierValue: proto.String("stale-identifier"), StringValue: []byte("stale bytes of a rejected message")}
+			var sink bytes.Buffer
+			if _, err := pbcmpl.Marshal(&sink, bad); err != nil {
+				w.Bucket("marshal/rejected-message-then-valid-one")
+			}
+		}
+	}
 	w.Op, w.A, w.B = "Marshal", int64(c.Kind), int64(len(body))
 	rec := &quotaWriter{quota: -1}
 	n, err := pbcmpl.Marshal(rec, msg)
@@ -68,6 +82,23 @@ func c06CheckMarshal(w *mon.W, c pbCase) ([]byte, bool) {
 		dd["err"] = err.Error()
 		w.Fail("Marshal/error-on-good-writer", dd)
 		return nil, false
+	}
+	// the messages this worker marshalled earlier are still the caller's: a legacy message whose Marshal returns its
+	// own slice must find that slice unchanged after later calls (a pooled encode buffer that adopted it was seeded)
+	kept, _ := w.State["c06msgs"].([]c06KeptMsg)
+	for _, k := range kept {
+		if !bytes.Equal(k.m.Payload, k.saved) || len(k.m.Payload) != len(k.saved) {
+			w.State["c06msgs"] = []c06KeptMsg(nil)
+			w.Fail("Marshal/earlier-message-changed-by-later-call", mon.D{"earlier_payload_len": len(k.saved), "what": "the payload slice of a legacy message marshalled earlier (its Marshal returns that slice itself) no longer holds what the caller put there"})
+			return nil, false
+		}
+	}
+	if l, ok := c06Legacy(msg); ok && l.keep {
+		if len(kept) >= 4 {
+			kept = kept[1:]
+		}
+		w.State["c06msgs"] = append(kept, c06KeptMsg{l, append([]byte(nil), l.Payload...)})
+		w.Bucket("legacy/marshal-returns-own-slice")
 	}
 	w.Op = "Size"
 	sz, hs := pbcmpl.Size(msg), pbcmpl.HeaderSize(msg)
@@ -137,6 +168,21 @@ func c06CheckMarshal(w *mon.W, c pbCase) ([]byte, bool) {
 }
 
 var c06NStd = len(stdReaders(nil))
+
+type c06KeptMsg struct {
+	m     *pbLegacy
+	saved []byte
+}
+
+func c06Legacy(m proto.Message) (*pbLegacy, bool) {
+	switch x := m.(type) {
+	case *pbLegacy:
+		return x, true
+	case *pbLegacyVer:
+		return &x.pbLegacy, true
+	}
+	return nil, false
+}
 
 // c06CheckStream unmarshals every frame of a stream through one chunking reader.
 func c06CheckStream(w *mon.W, cases []pbCase, frames [][]byte, mode int, reuse bool) bool {
